@@ -6,6 +6,8 @@
   borrower → NextLoan (payload messages executed as the router) → CompleteLoan → the vault's after_trade.
 
   Accounts: 0,1,2 users · 3 the borrower contract (adversary) · 4 the fee collector · 5 the vault router.
+  Every execute message can carry native coins it does not ask for (`Op.attach`): see there for what
+  the real handlers do with them.
   `kind`: 0 = native vault asset, 1 = cw20 vault asset. The LP token is always a cw20
   (default cargo features). A failed operation returns `none`: CosmWasm reverts everything.
   Zero-amount *native* transfers fail (bank: "Cannot transfer empty coins amount") while zero-amount
@@ -50,6 +52,7 @@ structure St where
   lb : List Nat         -- LP balances of accounts 0..3
   assetSupply : Nat     -- total supply of the vault asset (ghost for native, real for cw20)
   sent : Nat            -- GHOST: total protocol fees ever transferred to the fee collector by collections
+  jb : List Nat         -- balances of an UNRELATED native denom (`ujunk`): accounts 0..5, 6 = the vault's owner, 7 = the vault
 deriving Repr, DecidableEq
 
 /-- `Fee::compute` on a Uint128 loan amount (fits: share < 1) -/
@@ -295,37 +298,113 @@ inductive Op where
       (`kind = 1`; `ExternalCallback`, `execute/receive/mod.rs`), `Callback(AfterTrade{a, b})` sent by an
       account that is not the vault itself (`kind = 2`; `ExternalCallback`, `execute/callback/mod.rs`) -/
   | foreign (kind who a b : Nat)
+  /-- the message `op` sent with `n` native coins ATTACHED that it does not ask for, paid by its sender
+      `who` (0..3; 6 = the vault's owner, who holds nothing of the vault asset). `sel = 0`: coins of the
+      vault asset's own native denom (nobody holds such a coin when the asset is a cw20), `sel ≠ 0`: coins
+      of an unrelated denom. Any CosmWasm execute message can carry coins: the bank moves them to the
+      RECEIVING contract before the handler runs, and the whole transaction — the coins included —
+      reverts when the handler or anything it triggers fails. None of the vault's handlers but `Deposit`
+      and `Withdraw {}` looks at `info.funds`, none of the router's does (`flash_loan.rs` sends
+      `funds: vec![]` on to the vault), so:
+        * vault messages (`CollectProtocolFees`, `UpdateConfig`, `FlashLoan`, `Callback`, `Deposit` with an
+          unrelated denom): the coins are a DONATION to the vault made before the handler reads any
+          balance (for `FlashLoan`: before `old_balance` is recorded);
+        * router messages (`FlashLoan`, `NextLoan`, `CompleteLoan`): the coins are the router's; of the
+          vault asset's denom they are part of the balance `CompleteLoan` reads, so they leave with the
+          remaining proceeds to the initiator; of another denom they stay with the router;
+        * `Deposit` counts coins of the asset's denom as the deposit itself: that is the `sent` argument
+          of `.deposit` (amount mismatch is refused) — `.attach _ 0 _ (.deposit …)` is not a separate
+          message and the model refuses it (the driver adds such coins to `sent`);
+        * an empty coin (`n = 0`) is refused by the bank. -/
+  | attach (who sel n : Nat) (op : Op)
 deriving Repr
 
-def step (s : St) : Op → Option St
-  | .deposit who amount sent => if who ≥ 4 then none else deposit s who amount sent
-  | .withdraw who lp => if who ≥ 4 then none else withdraw s who lp
-  | .collect => collect s
-  | .setFees f => if f.valid then some { s with fees := f } else none
-  | .setToggles d w f => some { s with depOn := d, wdOn := w, flOn := f }
-  | .loan amount cb => loanFrom s amount cb
-  | .donate who n => if who ≥ 4 then none else payIn s who n
-  | .routerLoan initiator amount payload =>
+/-- the contract an operation's message is sent to: 0 the vault, 1 the vault router; `none` for what is
+    not an execute message of either (plain transfers; a cw20 `Send` goes to the token contract) -/
+def Op.recv : Op → Option Nat
+  | .deposit _ _ _ => some 0
+  | .withdraw _ _ => none
+  | .collect => some 0
+  | .setFees _ => some 0
+  | .setToggles _ _ _ => some 0
+  | .loan _ _ => some 0
+  | .donate _ _ => none
+  | .routerLoan _ _ _ => some 1
+  | .routerLoanNone _ _ => some 1
+  | .routerLoanMulti _ _ _ _ => some 1
+  | .fundRouter _ _ => none
+  | .nextLoanBy _ _ _ => some 1
+  | .completeLoanBy _ _ _ => some 1
+  | .foreign k _ _ _ => if k = 1 then none else some 0
+  | .attach _ _ _ op => op.recv
+
+/-- `Deposit` (with or without further coins attached) -/
+def Op.isDeposit : Op → Bool
+  | .deposit _ _ _ => true
+  | .attach _ _ _ op => op.isDeposit
+  | _ => false
+
+/-- the message itself, without the coins attached to it -/
+def Op.core : Op → Op
+  | .attach _ _ _ op => op.core
+  | op => op
+
+/-- `n` units move from entry `src` to entry `dst` of a balance list -/
+def lmove (l : List Nat) (src dst n : Nat) : List Nat :=
+  setN (setN l src (getN l src - n)) dst (getN (setN l src (getN l src - n)) dst + n)
+
+/-- `n` stray coins paid by `who` arrive at the contract the message is sent to (`dst`: 0 the vault,
+    1 the router), before the handler runs -/
+def arrive (s : St) (who sel n dst : Nat) : Option St :=
+  if n = 0 then none
+  else if sel = 0 then
+    if s.kind ≠ 0 ∨ who ≥ 4 then none
+    else if dst = 0 then payIn s who n else move s who 5 n
+  else
+    if (who ≥ 4 ∧ who ≠ 6) ∨ getN s.jb who < n then none
+    else some { s with jb := lmove s.jb who (if dst = 0 then 7 else 5) n }
+
+def step : St → Op → Option St
+  | s, .deposit who amount sent => if who ≥ 4 then none else deposit s who amount sent
+  | s, .withdraw who lp => if who ≥ 4 then none else withdraw s who lp
+  | s, .collect => collect s
+  | s, .setFees f => if f.valid then some { s with fees := f } else none
+  | s, .setToggles d w f => some { s with depOn := d, wdOn := w, flOn := f }
+  | s, .loan amount cb => loanFrom s amount cb
+  | s, .donate who n => if who ≥ 4 then none else payIn s who n
+  | s, .routerLoan initiator amount payload =>
     if initiator ≥ 4 then none else routerLoanFrom s initiator amount payload
   -- zero assets: the router emits no message at all (the payload is NOT run)
-  | .routerLoanNone _ _ => some s
+  | s, .routerLoanNone _ _ => some s
   -- more than one asset: NestedFlashLoansDisabled
-  | .routerLoanMulti _ _ _ _ => none
-  | .fundRouter who n => if who ≥ 4 then none else move s who 5 n
+  | _, .routerLoanMulti _ _ _ _ => none
+  | s, .fundRouter who n => if who ≥ 4 then none else move s who 5 n
   -- NextLoan: the sender must be the factory-registered vault; accounts 0..3 never are
-  | .nextLoanBy _ _ _ => none
+  | _, .nextLoanBy _ _ _ => none
   -- CompleteLoan: the sender must be the router itself; accounts 0..3 never are
-  | .completeLoanBy _ _ _ => none
-  | .foreign _ _ _ _ => none
+  | _, .completeLoanBy _ _ _ => none
+  | _, .foreign _ _ _ _ => none
+  -- stray coins: they arrive first, then the message runs; all or nothing
+  | s, .attach who sel n op =>
+    match op.recv with
+    | none => none
+    | some dst =>
+      if sel = 0 ∧ op.isDeposit = true then none else
+      match arrive s who sel n dst with
+      | none => none
+      | some s1 => step s1 op
 
 /-- a failed transaction leaves the state untouched -/
 def apply (s : St) (op : Op) : St := (step s op).getD s
 
 def reach (s : St) (ops : List Op) : St := ops.foldl apply s
 
+/-- what the harness mints of the unrelated denom to accounts 0..3 and to the owner (2^100) -/
+def JUNK0 : Nat := 1267650600228229401496703205376
+
 def init (kind : Nat) (f : VFees) (ab : List Nat) : St :=
   { kind := kind, bal := 0, pend := 0, allTime := 0, burned := 0, sup := 0, lpVault := 0, ctr := 0,
     fees := f, depOn := true, wdOn := true, flOn := true, ab := ab, lb := [0, 0, 0, 0],
-    assetSupply := ab.foldl (· + ·) 0, sent := 0 }
+    assetSupply := ab.foldl (· + ·) 0, sent := 0, jb := [JUNK0, JUNK0, JUNK0, JUNK0, 0, 0, JUNK0, 0] }
 
 end WW.Vault
